@@ -266,7 +266,7 @@ fn gen_text(r: &mut SplitMix) -> String {
 
 fn main() {
     let args = Args::parse();
-    std::panic::set_hook(Box::new(|_| {}));
+    vcore::quiet_panics();
     let mut report = Report::new(
         "codec_http",
         "aquatic_http_protocol: library-written requests parse back equal; reference-written query strings (any order, unknown keys, raw Latin-1 / %xx / %XX) parse to intended values; identifier strings accepted iff they denote exactly 20 bytes; replies byte-identical to an independent canonical bencode encoder, accepted by a strict decoder and parsed back equal; \
